@@ -428,16 +428,17 @@ def absorb_lin(run, job, res):
     for rej in res.get("rejected", []):
         desc = conclib.describe(rej)
         incomplete = rej["outcome"] not in ("Complete", "none")
-        # with eviction on, the contract has no notion of an eviction racing a command: only completion counts (C16)
+        # with eviction on, a history is only required to complete (C16) and to respect the memory bound at
+        # quiescence (C14): MemcLin's relaxed mode rejects a complete one only for the bound
         if desc.get("kind") in ("C16", "C14") and not incomplete:
-            res["coverage"].append(["history.not.judged.under.eviction", 1])
+            res["violations"].append({"tags": ["C14"], "rule": "bound.exceeded.at.quiescence", "line": rej["line"],
+                                      "name": desc["name"], "init": desc["init"]})
             continue
         tags = {"C16"} if incomplete else ({"C04"} if desc["kind"] == "C04" else {"C03"})
         if incomplete:
             rule = "did.not.complete." + rej["outcome"]
         else:
             rule = "not.linearizable." + "+".join(desc["ops"])
-            tags.add("C16") if False else None
         res["violations"].append({"tags": sorted(tags), "rule": rule, "line": rej["line"], "name": desc["name"], "init": desc["init"]})
     run.add_result(job, res)
     if not run.samples and res.get("histories", 0):
@@ -446,3 +447,29 @@ def absorb_lin(run, job, res):
             run.samples.append({"history": evs[1:8]})
         except Exception:
             pass
+
+
+def conc_eviction_extra(pid, tier, seed):
+    """C14 (concurrent clause): stores under eviction pressure from 2-3 clients under the scheduler; stored bytes at
+    quiescence within L + one record per store in flight.  Returns (violations, coverage addition)."""
+    run = Run(pid, tier, seed)
+    run.dir = workdir("check-" + pid + "-conc")
+    quick = tier == "quick"
+    jobs = []
+    for i in range(2 if quick else 8):
+        jobs.append((["conc", "--kind", "C14", "--set", "eviction", "--count", 15 if quick else 60, "--seed", seed * 10 + i,
+                      "--max-runs", 400 if quick else 3000, "--random-runs", 100], "MemcLin", "evict-%d.ndjson" % i,
+                     "concurrent stores under eviction pressure #%d" % i, None))
+
+    def one(j):
+        return job_trace(j[0], j[1], j[2], run.dir, j[3], lin=True)
+    for job, res in parallel(one, jobs, workers=6):
+        absorb_lin(run, job, res)
+    bad = []
+    for (job, res, v) in run.bad:
+        path = write_replay(pid, {"driver": job.get("driver"), "args": job.get("args"), "spec": "MemcLin", "property": pid, "violation": v})
+        log("VIOLATION property=%s replay=%s" % (pid, path))
+        log("  %s: %s" % (job.get("desc"), json.dumps(v)[:200]))
+        bad.append(v)
+    return len(bad), {"concurrent_eviction": {"histories": run.traces, "schedules_executed": run.extra.get("schedules_executed", 0),
+                                              "accepted": run.cov.get("history.linearizable", 0)}}
